@@ -1,7 +1,7 @@
 #!/usr/bin/env python3
 """Detection matrix for the seeded changes kept under /verif/seeded/.
 
-  tools/seedmatrix.py [--only C04-1,C10-2] [--ids C01,C02,...] [--lanes 4] [--tier quick] [--with-c07]
+  tools/seedmatrix.py [--only C04-1,C10-2] [--ids C01,C02,...] [--lanes 4] [--tier quick] [--with-c07] [--target-only]
 
 For every /verif/seeded/<name>/patch.diff: copy /repo's HEAD into a scratch directory outside /repo and
 /verif, apply the patch there, build a scratch copy of the harness against it and run the checks' quick
@@ -40,7 +40,13 @@ def prepare_lane(lane):
     return d
 
 
+TARGET_ONLY = False
+RESULT_NAME = "result.json"
+
+
 def evaluate(name, lane_dir, ids, tier, with_c07):
+    if TARGET_ONLY:
+        ids = [name.split("-")[0]]
     seed_dir = os.path.join(VERIF, "seeded", name)
     repo = f"{lane_dir}/repo"
     sh("git init -q . 2>/dev/null; true", cwd=repo)
@@ -74,7 +80,7 @@ def evaluate(name, lane_dir, ids, tier, with_c07):
         res["checks"][pid] = {"exit": rc, "first": reason[0][:400] if reason else "", "wall_s": round(time.time() - t0, 1)}
     res["detected_by"] = sorted(k for k, v in res["checks"].items() if v["exit"] == 1)
     res["inconclusive"] = sorted(k for k, v in res["checks"].items() if v["exit"] not in (0, 1))
-    json.dump(res, open(os.path.join(seed_dir, "result.json"), "w"), indent=1)
+    json.dump(res, open(os.path.join(seed_dir, RESULT_NAME), "w"), indent=1)
     return res
 
 
@@ -97,6 +103,11 @@ def main():
             tier = args[i]
         elif args[i] == "--with-c07":
             with_c07 = True
+        elif args[i] == "--target-only":
+            # only the check of the property the change was written for; results go to a separate file
+            global TARGET_ONLY, RESULT_NAME
+            TARGET_ONLY = True
+            RESULT_NAME = "result-target-only-seed%s.json" % os.environ.get("VERIF_SEED", "0")
         i += 1
     man = json.load(open(os.path.join(VERIF, "MANIFEST.json")))
     if ids is None:
